@@ -2253,6 +2253,8 @@ class DisjPtsMacro(Macro):
         self.limit = None
 
     def eval(self, args, prevs):
+        if not all(pt.prop.is_equals() for pt in prevs):
+            raise VeriTException("conj_pts/disj_pts", "premises should be equalities")
         lhs_set = [pt.lhs for pt in prevs]
         rhs_set = []
         for pt in prevs:
